@@ -631,7 +631,7 @@ def run(P, rep, tier):
     rep.rule('R05.1', 'both back ends visit exactly the sub-objects C11 6.7.9 prescribes: array elements 0..len-1 at stride base->size, every struct member (no arm leaves the member walk), the chosen union member; a struct-valued initializer expression is honoured or diagnosed', floor=14)
     rep.rule('R05.2', 'the static back end stores every scalar type class with its own width and representation (or nothing when there is no initializer)', floor=14)
     rep.rule('R05.4', 'static bit-field merge is old | ((new & ((1 << width) - 1)) << offset), computed in 64 bits, read and written with the width of the storage unit', floor=4)
-    rep.rule('R05.7', 'address constants: the relocation cursor is threaded through every recursive call and returned; a label+addend becomes a relocation at the element offset; eval2/eval_rval add member offsets', floor=8)
+    rep.rule('R05.7', 'address constants: the relocation cursor is threaded through every recursive call and returned; a label+addend becomes a relocation at the element offset; eval2/eval_rval add member offsets', floor=13)
     copies = r051_copy(P, u, E, rep)
     bs = BackEnd(P, u, E, 'write_gvar_data')
     bl = BackEnd(P, u, E, 'create_lvar_init')
@@ -910,7 +910,7 @@ def _range_ok(ctx, keys, b, e):
 
 def r058(P, u, E, rep):
     _need(u, 'array_initializer1', 'count_array_init_elements', 'designation', 'struct_initializer1', 'array_designator', 'struct_designator')
-    rep.rule('R05.8', 'after a designator the positional cursor resumes behind the designated sub-object (index `end`+1 after [begin ... end], the next member after .m) in every function that walks the cursor: array_initializer1, count_array_init_elements, designation, struct_initializer1', floor=6)
+    rep.rule('R05.8', 'after a designator the positional cursor resumes behind the designated sub-object (index `end`+1 after [begin ... end], the next member after .m) in every function that walks the cursor: array_initializer1, count_array_init_elements, designation, struct_initializer1', floor=10)
     RES = 'resume-after-range-designator'
     what = ('after `[begin ... end] = v` the next initializer without designator must go to element end+1 (C11 6.7.9p17 with the GNU range extension); '
             '%s continues at %s, so `{[1 ... 3] = 7, 9}` stores the 9 into the wrong element')
@@ -1106,7 +1106,7 @@ def r055(P, rep):
     CU = 'codegen.c'
     if 'emit_data' not in cu.functions:
         raise AnalysisBroken('anchor emit_data vanished from codegen.c')
-    rep.rule('R05.5', 'emit_data walks the byte image consistently: 8 bytes per relocation, consumed exactly when its offset equals the position, 1 byte otherwise, up to the object size; .size/.zero/.comm use the object size and the array-aware alignment', floor=7)
+    rep.rule('R05.5', 'emit_data walks the byte image consistently: 8 bytes per relocation, consumed exactly when its offset equals the position, 1 byte otherwise, up to the object size; .size/.zero/.comm use the object size and the array-aware alignment', floor=6)
     where = '%s:%d' % (CU, cu.fn('emit_data').line)
     E = cu.enums
     # ---- (a) the walk over image + relocations ----------------------------------------------
@@ -1308,7 +1308,7 @@ def _is_field(it, arg, owner, f):
 
 
 def r053(P, u, E, rep):
-    rep.rule('R05.3', 'automatic objects are zero-filled over their whole final size before the assignment chain runs; static images come from calloc of the final size', floor=7)
+    rep.rule('R05.3', 'automatic objects are zero-filled over their whole final size before the assignment chain runs; static images come from calloc of the final size', floor=10)
     # ---- lvar_initializer -----------------------------------------------------------------------
     fn = 'lvar_initializer'
 
@@ -1510,7 +1510,7 @@ def _is_min_len(ctx, n, A, B):
 
 def r056(P, u, E, cat, rep):
     fn = 'string_initializer'
-    rep.rule('R05.6', 'string_initializer reads the literal with the element width of the array for every element size that can reach it, stores min(array length, literal length) elements, or diagnoses', floor=6)
+    rep.rule('R05.6', 'string_initializer reads the literal with the element width of the array for every element size that can reach it, stores min(array length, literal length) elements, or diagnoses', floor=5)
     it = TInterp(P, u, {'opaque': ['new_initializer', 'array_of'], 'loop_limit': 2, 'lazy_field': children_hook(), 'track_stores': True})
     sizes = {}
     for name, f in cat.entries():
